@@ -1,5 +1,175 @@
-(** C15 — property theorems. *)
-From Coq Require Import List NArith Bool Lia.
+(** C15 — property theorems (statements; proofs are in C15/Proofs.v). *)
+From Coq Require Import List Arith NArith Bool Lia.
 From SV Require Import C15.Gen C15.Model C15.Proofs.
 Import ListNotations.
 Open Scope N_scope.
+
+(** 1. For EVERY byte list and every negotiated maximum, the decoder fails,
+    asks for more only when the frame really is incomplete, or returns a frame
+    with [consumed = 9 + payload_len <= length input], [payload_len <= max],
+    the reserved bit cleared, and the frame's contents inside its own payload
+    (padding <= remaining, PRIORITY+PADDED, SETTINGS a multiple of 6 and at
+    most 64 entries, the fixed sizes 5/4/8/4, GOAWAY >= 8). *)
+Theorem decoder_consumes_exactly :
+  forall input max,
+    match decode_frame input max with
+    | Ok consumed h f =>
+      consumed = 9 + payload_len h /\ consumed <= len input /\ payload_len h <= max /\
+      stream_id h < 2147483648 /\ wf_frame h f
+    | Incomplete =>
+      len input < 9 \/ exists rest h, frame_header input max = POk rest h /\ len input < 9 + payload_len h
+    | Fail _ => True
+    end.
+Proof. exact decoder_consumes_exactly_l. Qed.
+
+Example decoder_consumes_exactly_nonvacuous :
+  decode_frame [0;0;4; 8; 0; 0;0;0;1; 0;0;1;0; 7;7] 16384 =
+  Ok 13 (mkfh 4 FWindowUpdate 0 1) (WindowUpdate 1 256)
+  /\ decode_frame [0;0;4; 8; 0; 0;0;0;1; 0;0] 16384 = Incomplete
+  /\ decode_frame [0;0;5; 8; 0; 0;0;0;1; 0;0;1;0;9] 16384 = Fail FrameSizeError.
+Proof. vm_compute. repeat split; reflexivity. Qed.
+
+(** 2. Round trip: every frame the serializer emits (and DATA / HEADERS as the
+    converter frames them) decodes to exactly what was meant, whatever follows it. *)
+Theorem decode_encode :
+  (forall sid code tl max, N.land sid STREAM_ID_MASK <> 0 -> code < 4294967296 -> 4 <= max ->
+     decode_frame (rst_stream_bytes sid code ++ tl) max =
+     Ok 13 (mkfh 4 FRstStream 0 (N.land sid STREAM_ID_MASK)) (RstStream (N.land sid STREAM_ID_MASK) code)) /\
+  (forall sid incr tl max, 4 <= max ->
+     decode_frame (window_update_bytes sid incr ++ tl) max =
+     Ok 13 (mkfh 4 FWindowUpdate 0 (N.land sid STREAM_ID_MASK))
+        (WindowUpdate (N.land sid STREAM_ID_MASK) (N.land incr STREAM_ID_MASK))) /\
+  (forall last code tl max, code < 4294967296 -> 8 <= max ->
+     decode_frame (goaway_bytes last code ++ tl) max =
+     Ok 17 (mkfh 8 FGoAway 0 0) (GoAway (N.land last STREAM_ID_MASK) code 8 [])) /\
+  (forall payload tl max, length payload = 8%nat -> 8 <= max ->
+     decode_frame (ping_ack_bytes payload ++ tl) max = Ok 17 (mkfh 8 FPing 1 0) (Ping payload true)) /\
+  (forall tl max,
+     decode_frame (SETTINGS_ACKNOWLEDGEMENT ++ tl) max = Ok 9 (mkfh 0 FSettings 1 0) (Settings [] true)) /\
+  (forall s tl max, settings_small s -> 48 <= max ->
+     decode_frame (settings_bytes s ++ tl) max = Ok 57 (mkfh 48 FSettings 0 0) (Settings (settings_list s) false)) /\
+  (forall sid flags payload tl max,
+     N.land sid STREAM_ID_MASK <> 0 -> flags < 256 -> has_flag flags FLAG_PADDED = false ->
+     len payload < 16777216 -> len payload <= max ->
+     decode_frame (frame_header_bytes (mkfh (len payload) FData flags sid) ++ payload ++ tl) max =
+     Ok (9 + len payload) (mkfh (len payload) FData flags (N.land sid STREAM_ID_MASK))
+        (Data (N.land sid STREAM_ID_MASK) 0 payload (has_flag flags FLAG_END_STREAM))) /\
+  (forall sid flags fragment tl max,
+     N.land sid STREAM_ID_MASK <> 0 -> flags < 256 ->
+     has_flag flags FLAG_PADDED = false -> has_flag flags FLAG_PRIORITY = false ->
+     len fragment < 16777216 -> len fragment <= max ->
+     decode_frame (frame_header_bytes (mkfh (len fragment) FHeaders flags sid) ++ fragment ++ tl) max =
+     Ok (9 + len fragment) (mkfh (len fragment) FHeaders flags (N.land sid STREAM_ID_MASK))
+        (Headers (N.land sid STREAM_ID_MASK) None 0 fragment
+                 (has_flag flags FLAG_END_STREAM) (has_flag flags FLAG_END_HEADERS))).
+Proof.
+  repeat split.
+  - exact rst_stream_roundtrip.
+  - exact window_update_roundtrip.
+  - exact goaway_roundtrip.
+  - exact ping_ack_roundtrip.
+  - exact settings_ack_roundtrip.
+  - exact settings_roundtrip.
+  - exact data_roundtrip.
+  - exact headers_roundtrip.
+Qed.
+
+Example decode_encode_nonvacuous :
+  rst_stream_bytes 5 8 = [0;0;4; 3; 0; 0;0;0;5; 0;0;0;8] /\
+  settings_small (mksettings 4096 false 100 65535 16384 65536 false true).
+Proof. split; [vm_compute; reflexivity|]. unfold settings_small. cbn. lia. Qed.
+
+(** 3. Error classes: the RFC 9113 class for each malformed class. *)
+Theorem error_class :
+  (* 4.2: a length above the negotiated maximum *)
+  (forall plen t fl raw rest max, plen < 16777216 -> max < plen ->
+     decode_frame (raw_header plen t fl raw ++ rest) max = Fail FrameSizeError) /\
+  (* 6.x: stream-id rules, as a table over the type byte *)
+  (forall plen t fl raw rest max, plen < 16777216 -> plen <= max ->
+     (if (t =? 0) || (t =? 1) || (t =? 2) || (t =? 3) || (t =? 5) || (t =? 9)
+      then N.land (raw mod 4294967296) STREAM_ID_MASK = 0
+      else if (t =? 4) || (t =? 6) || (t =? 7) || (t =? 16)
+           then N.land (raw mod 4294967296) STREAM_ID_MASK <> 0 else False) ->
+     decode_frame (raw_header plen t fl raw ++ rest) max = Fail ProtocolError) /\
+  (* fixed sizes, SETTINGS multiple of 6 / ACK with payload, GOAWAY and PRIORITY_UPDATE minimum *)
+  (forall i h,
+     (ftyp h = FPriority /\ payload_len h <> 5) \/ (ftyp h = FRstStream /\ payload_len h <> 4) \/
+     (ftyp h = FPing /\ payload_len h <> 8) \/ (ftyp h = FWindowUpdate /\ payload_len h <> 4) \/
+     (ftyp h = FGoAway /\ payload_len h < 8) \/ (ftyp h = FSettings /\ payload_len h mod 6 <> 0) \/
+     (ftyp h = FSettings /\ has_flag (fflags h) 1 = true /\ payload_len h <> 0) \/
+     (ftyp h = FPriorityUpdate /\ payload_len h < 4) ->
+     frame_body i h = PFail FrameSizeError) /\
+  (* PUSH_PROMISE; padding that does not fit *)
+  (forall payload tl h, ftyp h = FPushPromise -> len payload = payload_len h ->
+     frame_body (payload ++ tl) h = PFail ProtocolError) /\
+  (forall pad content tl h, ftyp h = FData -> has_flag (fflags h) FLAG_PADDED = true ->
+     payload_len h = 1 + len content -> len content < pad ->
+     frame_body ((pad :: content) ++ tl) h = PFail ProtocolError) /\
+  (forall pad content tl h,
+     ftyp h = FHeaders -> has_flag (fflags h) FLAG_PADDED = true -> has_flag (fflags h) FLAG_PRIORITY = true ->
+     payload_len h = 1 + len content -> 5 <= len content -> len content - 5 < pad ->
+     frame_body ((pad :: content) ++ tl) h = PFail ProtocolError).
+Proof.
+  split; [exact header_too_large|].
+  split.
+  { intros plen t fl raw rest max Hp Hm Hr. apply header_bad_stream_id; try assumption.
+    rewrite stream_id_table.
+    destruct ((t =? 0) || (t =? 1) || (t =? 2) || (t =? 3) || (t =? 5) || (t =? 9)).
+    - rewrite Hr. reflexivity.
+    - destruct ((t =? 4) || (t =? 6) || (t =? 7) || (t =? 16)); [|contradiction].
+      apply N.eqb_neq. exact Hr. }
+  split; [exact body_size_errors|].
+  split; [exact push_promise_error|].
+  split; [exact data_padding_error|exact headers_padding_error].
+Qed.
+
+Example error_class_nonvacuous :
+  decode_frame (raw_header 6 4 0 3 ++ [0;0;0;0;0;0]) 16384 = Fail ProtocolError /\
+  decode_frame (raw_header 7 4 0 0 ++ [0;0;0;0;0;0;0]) 16384 = Fail FrameSizeError /\
+  decode_frame (raw_header 3 0 8 1 ++ [3;0;0]) 16384 = Fail ProtocolError.
+Proof. vm_compute. repeat split; reflexivity. Qed.
+
+(** 4. Flood detector: [threshold+1] qualifying frames inside one window trip
+    (from any state that is within its thresholds); a silent check certifies
+    every counter is within its threshold (no connection keeps running above a
+    limit); a reported violation has [count > threshold]; decay never increases
+    a counter and never touches a lifetime counter. *)
+Theorem flood_trips :
+  (forall k ks d, kind k -> Forall (fun x => x = k) ks ->
+     age d < FLOOD_WINDOW_MS -> threshold d k < U32 - 1 ->
+     nth_counter d k <= threshold d k ->
+     threshold d k < nth_counter d k + N.of_nat (length ks) ->
+     snd (run_events d ks) = true) /\
+  (forall d, snd (check_flood d) = None -> under (fst (check_flood d))) /\
+  (forall d k c t, snd (check_flood d) = Some (k, c, t) -> t < c) /\
+  (forall d, let d' := maybe_reset_window d in
+     Forall2 N.le (counters d') (counters d) /\
+     rst_life d' = rst_life d /\ rst_abusive d' = rst_abusive d /\ rst_emitted d' = rst_emitted d /\
+     ping_life d' = ping_life d /\ settings_life d' = settings_life d /\ cfg d' = cfg d).
+Proof.
+  split; [intros; eapply flood_trips_l; eauto|].
+  split; [exact check_flood_silent|].
+  split; [exact check_flood_trip|exact decay_monotone].
+Qed.
+
+Example flood_trips_nonvacuous :
+  let d := flood_new (cfg_new 100 2 50 100 100 20 100 1000 50 500 65536) in
+  snd (run_events d [4; 4]) = false /\ snd (run_events d [4; 4; 4]) = true.
+Proof. vm_compute. split; reflexivity. Qed.
+
+(** 5. Slot table: after ANY sequence of create / kill / shrink / admission,
+    every slot index stored in the wire-id map designates an existing,
+    non-recycled slot and no two streams share a slot; with the admission test
+    the number of open streams never exceeds the advertised maximum. *)
+Theorem slot_indices_valid :
+  (forall ops r, tbl_ok (fold_left sstep ops (mktable [] [] r))) /\
+  (forall mx ops t, Forall (only_accept mx) ops -> (length (smap t) <= mx)%nat ->
+     (length (smap (fold_left sstep ops t)) <= mx)%nat).
+Proof.
+  split; [intros; apply slots_valid_l; apply tbl_ok_empty|exact concurrent_bound_l].
+Qed.
+
+Example slot_indices_valid_nonvacuous :
+  let t := fold_left sstep [SCreate 1; SCreate 3; SCreate 5; SKill 3; SKill 5; SCreate 7; SShrink] (mktable [] [] 2) in
+  slots t = [Live 1; Live 7] /\ smap t = [(7, 1%nat); (1, 0%nat)].
+Proof. vm_compute. split; reflexivity. Qed.
